@@ -1,1 +1,22 @@
-(* C02 - to be filled *)
+(* C02 - script order mirrors document order.  The description of what an entry contributes is
+   shared with C01 (Spec/C01.v); here: the expected sequence of output sections. *)
+From Slinky Require Import Model.Types Model.Runtime Model.Style Model.Script Model.Writer Model.LdSem.
+From Slinky Require Export Spec.C01.
+Local Open Scope string_scope.
+
+(* the output sections of one segment in a multi-segment script: allocatable half, then noload half *)
+Definition segment_outsecs (seg : segment) : list string :=
+  ["." ++ sg_name seg; "." ++ sg_name seg ++ ".noload"].
+
+(* the segments that are emitted, in document order *)
+Definition emitted_segments (rt : runtime) (segs : list segment) : list segment :=
+  filter (fun seg => should_emit rt (sg_conds seg)) segs.
+
+(* one group of a half: start symbols, the files, end symbols, and possibly a blank line *)
+Definition is_group_of (rt : runtime) (st : settings) (cfg : wcfg) (seg : segment) (sections : list string)
+           (section : string) (chunk : list stmt) : Prop :=
+  exists files ws1 ws2 sep,
+    emit_section rt (linker_symbols_style st) cfg seg sections (base_path st) section ws1 = Ok (files, ws2) /\
+    (sep = [] \/ sep = [SBlank]) /\
+    chunk = (section_symbol_start rt (linker_symbols_style st) cfg seg section ++ files ++
+             section_symbol_end (linker_symbols_style st) cfg seg section ++ sep)%list.
